@@ -19,7 +19,7 @@ import (
 	"time"
 )
 
-// Finding is one line of /verif/known_findings.jsonl.
+// Finding is one "known" line of /verif/known_findings.txt.
 type Finding struct {
 	Property string `json:"property"`
 	Key      string `json:"key"`
@@ -150,8 +150,16 @@ func (r *Run) Pick(q, t int) int {
 	return q
 }
 
+// loadKnown reads /verif/known_findings.txt (committed, never written at run
+// time). Lines:
+//
+//	known: property=<ID> key=<violation key> :: <what fails>
+//	fixed: property=<ID> <commit> <what failed>
+//
+// Only "known" lines suppress anything, and only the violation whose key
+// matches exactly; "fixed" lines are a record and suppress nothing.
 func (r *Run) loadKnown() {
-	f, err := os.Open(filepath.Join(r.Root, "known_findings.jsonl"))
+	f, err := os.Open(filepath.Join(r.Root, "known_findings.txt"))
 	if err != nil {
 		return
 	}
@@ -160,16 +168,24 @@ func (r *Run) loadKnown() {
 	sc.Buffer(make([]byte, 1<<20), 1<<20)
 	for sc.Scan() {
 		line := strings.TrimSpace(sc.Text())
-		if line == "" || strings.HasPrefix(line, "#") {
+		if !strings.HasPrefix(line, "known: property=") {
 			continue
 		}
-		var fd Finding
-		if json.Unmarshal([]byte(line), &fd) != nil {
+		rest := strings.TrimPrefix(line, "known: property=")
+		sp := strings.IndexByte(rest, ' ')
+		if sp < 0 || rest[:sp] != r.ID {
 			continue
 		}
-		if fd.Property == r.ID && fd.Status == "known" {
-			r.known[fd.Key] = fd
+		rest = strings.TrimSpace(rest[sp:])
+		if !strings.HasPrefix(rest, "key=") {
+			continue
 		}
+		rest = rest[4:]
+		key, what := rest, ""
+		if i := strings.Index(rest, " :: "); i >= 0 {
+			key, what = rest[:i], rest[i+4:]
+		}
+		r.known[key] = Finding{Property: r.ID, Key: key, Status: "known", What: what}
 	}
 }
 
